@@ -387,56 +387,53 @@ theorem tileSize_small (L : Int) (k : Nat) (hk : k ≤ 6) (hL : Max.max 0 L = (k
   have : (8 * ((k : Int) + 1)).toNat = 8 * (k + 1) := by omega
   rw [this, wrap_pow k hk]
 
-/-- levels 7 … 2^61 − 2: the process panics (zero divisor after a shift by ≥ 64, or negative shift) -/
-theorem tileSize_mid (L : Int) (h7 : 7 ≤ L) (hbig : L < 2305843009213693951) :
-    tileSizeExpr.eval (env1 L) = none ∨ tileSizeExpr.eval (env1 L) = some 0 := by
-  simp only [tileSizeExpr, Expr.eval, env1, bind, Option.bind]
-  have hL : Max.max 0 L = L := by omega
-  rw [hL]
-  have hw1 : wrap64 (L + 1) = L + 1 := by apply wrap64_id <;> omega
-  rw [hw1]
-  by_cases hs : 8 * (L + 1) < 9223372036854775808
-  · have hw2 : wrap64 (8 * (L + 1)) = 8 * (L + 1) := by apply wrap64_id <;> omega
-    rw [hw2]
-    have hs0 : ¬ (8 * (L + 1) < 0) := by omega
-    have hs1 : (8 * (L + 1) ≥ 64) := by omega
-    right
-    simp [shl64, hs0, hs1]
-  · have hneg : wrap64 (8 * (L + 1)) < 0 := by unfold wrap64; omega
-    left
-    simp [shl64, hneg]
+theorem levelGuard_eval (L : Int) : levelGuardExpr.eval (env1 L) = some (if L > 6 then 1 else 0) := by
+  simp [levelGuardExpr, Expr.eval, env1, bind, Option.bind]
 
-/-- Strictly left of the edge ⇒ either a level a tree can have (≤ 6) with the stated inequality, or a
-level ≥ 2^61 − 1 whose shift count wrapped around (no int64-sized tree has tiles there).
-Levels 7 … 2^61 − 2 make the process panic. -/
+/-- Strictly left of the edge: a level a tree can have (≤ 6) and `N < size / 256^(level+1)`. -/
 theorem edge_guard (t : Tile) (size : Nat) (hL0 : -2 ≤ t.L)
     (h : atOrRightOfEdge t size = some false) :
-    (t.L ≤ 6 ∧ t.N < ((size / 256 ^ (lvl t + 1) : Nat) : Int)) ∨ 2305843009213693951 ≤ t.L := by
-  by_cases hbig : 2305843009213693951 ≤ t.L
-  · exact Or.inr hbig
-  · left
-    unfold atOrRightOfEdge at h
-    by_cases h6 : t.L ≤ 6
-    · refine ⟨h6, ?_⟩
-      have hk : lvl t ≤ 6 := by unfold lvl; omega
-      have hL : Max.max 0 t.L = ((lvl t : Nat) : Int) := by unfold lvl; omega
-      rw [tileSize_small t.L (lvl t) hk hL] at h
-      simp only [edgeGuardExpr, Expr.eval, env2, bind, Option.bind] at h
-      have hne : (((256 ^ (lvl t + 1) : Nat) : Int)) ≠ 0 := by
-        have : 0 < 256 ^ (lvl t + 1) := Nat.pow_pos (by decide)
-        omega
-      have hdiv : Int.tdiv (size : Int) ((256 ^ (lvl t + 1) : Nat) : Int) = ((size / 256 ^ (lvl t + 1) : Nat) : Int) := by
-        rw [Int.tdiv_eq_ediv_of_nonneg (by omega)]
-        exact (Int.natCast_ediv _ _).symm
-      simp only [goDiv, hne, if_false, hdiv] at h
-      by_cases hge : t.N ≥ ((size / 256 ^ (lvl t + 1) : Nat) : Int)
-      · rw [if_pos hge] at h; exact absurd h (by decide)
-      · omega
-    · exfalso
-      rcases tileSize_mid t.L (by omega) (by omega) with h0 | h0
-      · rw [h0] at h; cases h
-      · rw [h0] at h
-        simp [edgeGuardExpr, Expr.eval, env2, goDiv, bind, Option.bind] at h
+    t.L ≤ 6 ∧ t.N < ((size / 256 ^ (lvl t + 1) : Nat) : Int) := by
+  unfold atOrRightOfEdge at h
+  rw [levelGuard_eval] at h
+  by_cases h6 : t.L > 6
+  · simp [h6] at h
+  · have h6' : t.L ≤ 6 := by omega
+    refine ⟨h6', ?_⟩
+    simp only [h6, if_false] at h
+    have hk : lvl t ≤ 6 := by unfold lvl; omega
+    have hL : Max.max 0 t.L = ((lvl t : Nat) : Int) := by unfold lvl; omega
+    rw [tileSize_small t.L (lvl t) hk hL] at h
+    simp only [edgeGuardExpr, Expr.eval, env2, bind, Option.bind] at h
+    have hne : (((256 ^ (lvl t + 1) : Nat) : Int)) ≠ 0 := by
+      have : 0 < 256 ^ (lvl t + 1) := Nat.pow_pos (by decide)
+      omega
+    have hdiv : Int.tdiv (size : Int) ((256 ^ (lvl t + 1) : Nat) : Int) = ((size / 256 ^ (lvl t + 1) : Nat) : Int) := by
+      rw [Int.tdiv_eq_ediv_of_nonneg (by omega)]
+      exact (Int.natCast_ediv _ _).symm
+    simp only [goDiv, hne, if_false, hdiv] at h
+    by_cases hge : t.N ≥ ((size / 256 ^ (lvl t + 1) : Nat) : Int)
+    · rw [if_pos hge] at h; simp at h
+    · omega
+
+/-- the right-edge arithmetic never panics on a parsed tile (level ≥ −2): levels above 6 are cut off
+before the shift, below that the divisor is 256^(level+1) ≠ 0 -/
+theorem atOrRightOfEdge_ne_none (t : Tile) (size : Nat) (hL0 : -2 ≤ t.L) : atOrRightOfEdge t size ≠ none := by
+  unfold atOrRightOfEdge
+  rw [levelGuard_eval]
+  by_cases h6 : t.L > 6
+  · simp [h6]
+  · simp only [h6, if_false]
+    have hk : lvl t ≤ 6 := by unfold lvl; omega
+    have hL : Max.max 0 t.L = ((lvl t : Nat) : Int) := by unfold lvl; omega
+    rw [tileSize_small t.L (lvl t) hk hL]
+    simp only [edgeGuardExpr, Expr.eval, env2, bind, Option.bind]
+    have hne : (((256 ^ (lvl t + 1) : Nat) : Int)) ≠ 0 := by
+      have : 0 < 256 ^ (lvl t + 1) := Nat.pow_pos (by decide)
+      omega
+    simp only [goDiv, hne, if_false]
+    intro hc
+    cases hc
 
 /-! ### every deletion of the walk is justified by the guards -/
 
